@@ -151,6 +151,25 @@ def namespace_policy(ev) -> str:
         raise TranslationError("Transpiler.evaluate: the exec namespace is assigned more than once")
     v = src[0][1]
     module_globals = ("celpy.evaluation.result.__globals__", "globals()", "result.__globals__")
+    # a local alias of the module namespace (`m = result.__globals__; ns = m.copy()`): a name bound exactly once, to one of the
+    # module-globals expressions, and used exactly once (as the source of the exec namespace -- any other use could write the module
+    # namespace itself) is followed; `ns = m` without a copy then still reads as `shared`.
+    for an in {n.id for n in ast.walk(v) if isinstance(n, ast.Name) and isinstance(n.ctx, ast.Load)}:
+        bound = _assigns(fn, lambda t, an=an: isinstance(t, ast.Name) and t.id == an)
+        if len(bound) == 1 and _u(bound[0][1]) in module_globals:
+            uses = [n for n in ast.walk(fn) if isinstance(n, ast.Name) and n.id == an]
+            other_binders = [n for n in ast.walk(fn) if isinstance(n, (ast.AugAssign, ast.For, ast.NamedExpr, ast.With, ast.Delete,
+                                                                     ast.ExceptHandler, ast.Global, ast.Nonlocal, ast.comprehension))
+                             and (an in [x.id for x in ast.walk(n) if isinstance(x, ast.Name) and not isinstance(x.ctx, ast.Load)]
+                                  or getattr(n, "name", None) == an or an in getattr(n, "names", ()))]
+            if len(uses) != 2 or other_binders or an in [a.arg for a in ast.walk(fn.args) if isinstance(a, ast.arg)]:
+                raise TranslationError(f"Transpiler.evaluate: the alias `{an}` of the module namespace is used more than once")
+            alias_text = _u(bound[0][1])
+
+            class _Subst(ast.NodeTransformer):
+                def visit_Name(self, node, an=an, alias_text=alias_text):
+                    return ast.parse(alias_text, mode="eval").body if node.id == an else node
+            v = ast.fix_missing_locations(_Subst().visit(ast.parse(_u(v), mode="eval").body))
     if _u(v) in module_globals:
         pol = "shared"
     elif isinstance(v, ast.Call) and _u(v.func) == "dict" and len(v.args) == 1 and _u(v.args[0]) in module_globals and not v.keywords:
@@ -163,12 +182,63 @@ def namespace_policy(ev) -> str:
         raise TranslationError(f"Transpiler.evaluate: unrecognised exec namespace `{_u(v)}`")
     # the activation handed to the transpiled code, and the result picked up, go through that namespace
     sub = _assigns(fn, lambda t: isinstance(t, ast.Subscript) and _u(t.value) == ns)
-    if [( _u(t.slice), _u(val)) for t, val in sub] != [("'base_activation'", "self.activation")]:
+    writes = [(_u(t.slice), _u(val)) for t, val in sub]
+    # the method forms of the same single-key write: `ns.update(base_activation=x)`, `ns.update({'base_activation': x})`,
+    # `ns.__setitem__('base_activation', x)`; every other method call on the namespace (pop, clear, setdefault, update with
+    # anything else, ...) is not understood.
+    for n in ast.walk(fn):
+        if isinstance(n, ast.Call) and isinstance(n.func, ast.Attribute) and _u(n.func.value) == ns:
+            m = n.func.attr
+            if m == "update" and not n.args and n.keywords and all(k.arg is not None for k in n.keywords):
+                writes += [(repr(k.arg), _u(k.value)) for k in n.keywords]
+            elif m == "update" and len(n.args) == 1 and not n.keywords and isinstance(n.args[0], ast.Dict) \
+                    and all(isinstance(k, ast.Constant) and isinstance(k.value, str) for k in n.args[0].keys):
+                writes += [(repr(k.value), _u(val)) for k, val in zip(n.args[0].keys, n.args[0].values)]
+            elif m == "__setitem__" and len(n.args) == 2 and not n.keywords:
+                writes += [(_u(n.args[0]), _u(n.args[1]))]
+            else:
+                raise TranslationError(f"Transpiler.evaluate: unrecognised operation on the exec namespace `{_u(n)}`")
+    if writes != [("'base_activation'", "self.activation")]:
         raise TranslationError("Transpiler.evaluate: base_activation is not passed through the exec namespace")
+    # ... and that write happens before the exec (both statements of the function: the write in its own body)
+    wr_stmt = [i for i, st in enumerate(fn.body) if isinstance(st, (ast.Assign, ast.AnnAssign, ast.Expr))
+               and "base_activation" in _u(st) and any(_u(x) == ns for x in ast.walk(st))]
+    ex_stmt = [i for i, st in enumerate(fn.body) if any(x is execs[0] for x in ast.walk(st))]
+    if len(wr_stmt) != 1 or len(ex_stmt) != 1 or wr_stmt[0] >= ex_stmt[0]:
+        raise TranslationError("Transpiler.evaluate: base_activation is not written to the exec namespace before exec")
     reads = [n for n in ast.walk(fn) if isinstance(n, ast.Subscript) and isinstance(n.ctx, ast.Load) and _u(n.value) == ns]
-    if [_u(n.slice) for n in reads] != ["'CEL'"]:
+    if [_const_text(tp, ev, n.slice) for n in reads] != ["'CEL'"]:
         raise TranslationError("Transpiler.evaluate: the result is not read from the exec namespace")
     return pol
+
+
+def _const_text(cls, module, node) -> str:
+    """the text of a subscript key, following one level of named constant by meaning: `self.NAME` / `<Class>.NAME` /
+    `type(self).NAME` / `self.__class__.NAME` where NAME is bound exactly once in the whole module -- in the body of `cls`, to a
+    string literal -- and never assigned as an attribute anywhere (so no instance, subclass or later rebinding can change it);
+    a module-level NAME bound once to a string literal and never declared `global` likewise."""
+    name = None
+    if isinstance(node, ast.Attribute) and _u(node.value) in ("self", cls.name, "type(self)", "self.__class__"):
+        name, where = node.attr, cls.body
+    elif isinstance(node, ast.Name):
+        name, where = node.id, module.body
+    if name is None:
+        return _u(node)
+    here = [(t, v) for st in where if isinstance(st, (ast.Assign, ast.AnnAssign)) and getattr(st, "value", None) is not None
+            for t in (st.targets if isinstance(st, ast.Assign) else [st.target]) for v in [st.value]
+            if isinstance(t, ast.Name) and t.id == name]
+    stores = [n for n in ast.walk(module) if (isinstance(n, ast.Name) and n.id == name and not isinstance(n.ctx, ast.Load))
+              or (isinstance(n, ast.Attribute) and n.attr == name and not isinstance(n.ctx, ast.Load))
+              or (isinstance(n, (ast.Global, ast.Nonlocal)) and name in n.names)
+              or (isinstance(n, (ast.FunctionDef, ast.AsyncFunctionDef, ast.ClassDef)) and n.name == name)
+              or (isinstance(n, ast.arg) and n.arg == name and isinstance(node, ast.Name))
+              or (isinstance(n, ast.alias) and (n.asname or n.name) == name)]
+    dyn = [n for n in ast.walk(module) if isinstance(n, ast.Call) and _u(n.func) in ("setattr", "delattr")
+           and any(isinstance(a, ast.Constant) and a.value == name for a in n.args)]
+    if len(here) == 1 and len(stores) == 1 and stores[0] is here[0][0] and not dyn \
+            and isinstance(here[0][1], ast.Constant) and isinstance(here[0][1].value, str):
+        return repr(here[0][1].value)
+    return _u(node)
 
 
 def interpreted_fresh(ev, init) -> None:
@@ -205,6 +275,59 @@ def interpreted_fresh(ev, init) -> None:
         raise TranslationError("Runner.new_activation: expected one Activation(...)")
 
 
+def _per_class_via_local(init, tc: str, local: str, lark_call) -> bool:
+    """The per-class cache written with a single look-up (round 4, harmless2-G3-h2):
+
+        local = <cache>.get(tc)                     # top level of __init__; no default (or None)
+        if local is None:                           # top level, later, no else
+            ...
+            local = <cache>[tc] = Lark(..., tree_class=tc)      # or `<cache>[tc] = local` as a later statement of the body
+        self.parser = local                         # top level, later
+
+    `local` is stored nowhere else, nothing between the look-up and the test touches the cache or the local, and the function
+    has no `return`: then self.parser is the entry of <cache> under `tc`, built with tree_class=tc when there was none —
+    the meaning of the `tc not in <cache>` shape."""
+    if not local.isidentifier() or any(isinstance(n, ast.Return) for n in ast.walk(init)):
+        return False
+    stores = [n for n in ast.walk(init) if isinstance(n, ast.Name) and n.id == local and isinstance(n.ctx, ast.Store)]
+    if len(stores) != 2:
+        return False
+    body = init.body
+    i_get = i_if = i_self = None
+    cache = None
+    for i, st in enumerate(body):
+        if (i_get is None and isinstance(st, ast.Assign) and len(st.targets) == 1 and _u(st.targets[0]) == local
+                and isinstance(st.value, ast.Call) and isinstance(st.value.func, ast.Attribute) and st.value.func.attr == "get"
+                and not st.value.keywords and st.value.args and _u(st.value.args[0]) == tc
+                and (len(st.value.args) == 1 or (len(st.value.args) == 2 and _u(st.value.args[1]) == "None"))):
+            i_get, cache = i, _u(st.value.func.value)
+        elif i_get is not None and i_if is None and isinstance(st, ast.If) and _u(st.test) == f"{local} is None" and not st.orelse:
+            i_if = i
+        elif i_if is not None and i_self is None and isinstance(st, ast.Assign) and [_u(t) for t in st.targets] == ["self.parser"] \
+                and _u(st.value) == local:
+            i_self = i
+    if i_get is None or i_if is None or i_self is None:
+        return False
+    for st in body[i_get + 1:i_if]:
+        names = {n.id for n in ast.walk(st) if isinstance(n, ast.Name)}
+        if cache in _u(st) or local in names:
+            return False
+    key = f"{cache}[{tc}]"
+    built = stored = False
+    for st in body[i_if].body:
+        if isinstance(st, ast.Assign) and st.value is lark_call:
+            ts = [_u(t) for t in st.targets]
+            if local not in ts or any(t not in (local, key) for t in ts):
+                return False
+            built = True
+            stored = stored or key in ts
+        elif built and isinstance(st, ast.Assign) and [_u(t) for t in st.targets] == [key] and _u(st.value) == local:
+            stored = True
+        elif built and (cache in _u(st) or local in {n.id for n in ast.walk(st) if isinstance(n, ast.Name)}):
+            return False
+    return built and stored
+
+
 def parser_policy(cp) -> str:
     cls = find_class(cp, "CELParser")
     init = find_func(cls.body, "__init__")
@@ -216,6 +339,7 @@ def parser_policy(cp) -> str:
         raise TranslationError("CELParser.parse: expected one .parse(...) call")
     lark_targets = [_u(t) for t, v in _assigns(init, lambda t: True) if isinstance(v, ast.Call) and _u(v.func) == "Lark"]
     lark_calls = [v for _, v in _assigns(init, lambda t: True) if isinstance(v, ast.Call) and _u(v.func) == "Lark"]
+    lark_calls = [v for i, v in enumerate(lark_calls) if all(v is not w for w in lark_calls[:i])]   # `a = b[k] = Lark(...)` is one call
     if len(lark_calls) != 1 or {k.arg: _u(k.value) for k in lark_calls[0].keywords}.get("tree_class") != tc:
         raise TranslationError("CELParser.__init__: expected one Lark(..., tree_class=<param>)")
     selfp = [_u(v) for _, v in _assigns(init, lambda t: _u(t) == "self.parser")]
@@ -225,6 +349,8 @@ def parser_policy(cp) -> str:
         cache = selfp[0][: -len(f"[{tc}]")]
         if f"{tc} not in {cache}" not in tests:
             raise TranslationError("CELParser.__init__: the per-class cache is not tested by `tree_class not in <cache>`")
+        return "perClass"
+    if recv == ["self.parser"] and len(selfp) == 1 and _per_class_via_local(init, tc, selfp[0], lark_calls[0]):
         return "perClass"
     if recv == ["CELParser.CEL_PARSER"] and lark_targets == ["CELParser.CEL_PARSER"]:
         return "singleton"
